@@ -149,6 +149,8 @@ def run(ck: Check) -> int:
     from pytezos.protocol.protocol import Protocol
     ck.function(make_patch)
     ck.function(apply_patch)
+    from props.C30_P import run_P
+    run_P(ck)
     ck.function(Protocol.diff)
     ck.function(Protocol.patch)
     ck.assume('difflib.unified_diff and re are the installed CPython versions (their output is consumed as is; '
@@ -176,7 +178,9 @@ def run(ck: Check) -> int:
     _run_protocols(ck)
     ck.samples.append(dict(kind='text', a='a\nb', b='b\n\n', context_size=1, filename='m.ml'))
     ck.exhaustive = True
-    return ck.finish('exploration',
+    return ck.finish('other',
+                     'S (props/C30_P.py): Protocol.diff / Protocol.patch glue on the real ASTs, modular over the text-level contracts, for all file '
+                     'texts and every overlap pattern of up to 2 (3) file names: patch∘diff reproduces the second protocol; '
                      'R (bounded): make_patch/apply_patch contracts evaluated on the real functions for every pair of '
                      'texts in scope and every context size, forward and revert; Protocol.diff -> Protocol.patch on '
-                     'every pair of small protocols. No clause is proved for unbounded inputs.')
+                     'every pair of small protocols. The text-level clauses are decided on bounded inputs only (difflib and the hunk regex are external).')
